@@ -4,7 +4,7 @@ import itertools
 from . import core, exprio, graphs, graphcorr
 from .core import Finding
 
-THEOREMS = []
+THEOREMS = ["Cspuz.C07.C07_groups_exact", "Cspuz.C07.C07_groups_nosize", "Cspuz.C07.C07_borders_aux", "Cspuz.C07.C07_borders_prim"]
 
 
 def correspond(ctx):
